@@ -49,7 +49,9 @@ def _shard_entry(args):
     t0 = time.time()
     core = _pin()
     try:
-        return _shard_body(pid, spec, seed, tier, t0)
+        res = _shard_body(pid, spec, seed, tier, t0)
+        res['index'] = seed % 1000
+        return res
     finally:
         if core is not None:
             _CORES.put(core)
@@ -187,7 +189,10 @@ def main(argv=None) -> int:
             for c in (cores * NPROC)[:max(NPROC, len(cores))]:
                 _CORES.put(c)
         with ctx.Pool(processes=min(NPROC, len(jobs)), maxtasksperchild=1) as pool:
-            for res in pool.imap_unordered(_shard_entry, jobs, chunksize=1):
+            results = list(pool.imap_unordered(_shard_entry, jobs, chunksize=1))
+            # merge in plan order so that samples and reported failures do not depend on completion order
+            results.sort(key=lambda r: r.get('index', 0))
+            for res in results:
                 walls.append((res['spec'].get('kind', '?'), round(res['wall'], 1)))
                 if 'error' in res:
                     errors.append(res)
